@@ -14,5 +14,5 @@ grep -rl '/repo' $VX/lib $VX/checks $VX/harness/go.mod $VX/vcheck 2>/dev/null | 
 echo "rc=$RC $(grep -c '^VIOLATION' /tmp/trymut-$TAG.out) violations; $(grep -m1 '^VIOLATION' /tmp/trymut-$TAG.out | cut -c1-300)"
 tail -1 /tmp/trymut-$TAG.out | cut -c1-300
 git -C /repo worktree remove --force $WT
-rm -rf $VX /tmp/trymut-$TAG.out
+cp /tmp/trymut-$TAG.out /tmp/trymut-last.out; rm -rf $VX /tmp/trymut-$TAG.out
 exit 0
